@@ -238,13 +238,32 @@ def run(tier, seed):
     if dpayload is not None:
         C.violation("C18", C.write_replay("C18", seed, dpayload))
         failures_t = True
+    # clones share everything also when their calls overlap in time: small programs of 2-3 threads, each through its own clone, every
+    # interleaving of the runtime's atomic operations (controlled scheduler) against the Layer B model
+    from ..layer_b import ConcurrentPart
+    from . import C10
+    def conc_programs(rng_, tier_):
+        progs = [C10.gen_case(rng_, nthreads=2, ncalls=1) for _ in range(8 if tier_ == "quick" else 30)]
+        progs += [C10.gen_case(rng_, nthreads=2, ncalls=2) for _ in range(3 if tier_ == "quick" else 12)]
+        progs += [C10.gen_case(rng_, nthreads=3, ncalls=1) for _ in range(2 if tier_ == "quick" else 10)]
+        for c in progs:
+            c["sched"] = []
+        return progs
+    cn, cpayload, ccov = (0, None, {})
+    if not (failures or failures_t):
+        cn, cpayload, ccov = ConcurrentPart("C18", conc_programs, "correspondence C18 (concurrent part): outcomes and verdict of calls routed through "
+                                            "different clones on different threads, every interleaving, vs the Layer B model")(rng, tier, seed, [])
+    if cpayload is not None:
+        C.violation("C18", C.write_replay("C18", seed, cpayload))
+        failures_t = True
     distinct = {canon(strip(b)): b for b in bases}
     nt = 0
     for bi, b in enumerate(bases):
         if len({t["mid"] for t in b["terms"]}) >= 2 and runs[4 * bi + 1]["terms"] != b["terms"]:
             nt += 1
     cov = {
-        "obligations": len(obligations) + 3, "discharged": len(obligations) + (0 if failures else 1) + (0 if tfail else 1) + (0 if dpayload else 1),
+        "obligations": len(obligations) + 4, "discharged": len(obligations) + (0 if failures else 1) + (0 if tfail else 1) + (0 if dpayload else 1) + (0 if cpayload else 1),
+        **ccov,
         "receiver_part": {"evaluations": dn, "rule": "C15 generator: clause sets over trait D, calls through every receiver kind on the original and on clones"},
         "tuple_part": {"evaluations": len(tcases), "kinds": dict(collections.Counter(m[1] for m in tmeta)),
                        "rule": "flat tuples of every arity 2..16 (adjacent overlapping patterns; ordered clauses only) + base cases written as chunked tuples, "
@@ -252,7 +271,7 @@ def run(tier, seed):
         "checker_cmd": f"make -C /verif/coq ; ./check C18 --tier {tier}", "trusted_base": C.TRUSTED_BASE,
         "theorems": obligations,
         "correspondence_obligation": "base / permuted / re-routed / twin-interleaved runs: pairwise identical projections and equal to the model",
-        "evaluations": len(runs) + len(tcases) + dn, "distinct_nontrivial": min(nt, len(distinct)), "rule": RULE,
+        "evaluations": len(runs) + len(tcases) + dn + cn, "distinct_nontrivial": min(nt, len(distinct)), "rule": RULE,
         "samples": [K.harness_line(runs[k], "sample") for k in (1, 2, 3)],
         "distribution": dict(collections.Counter(m[1] for m in meta)),
     }
@@ -271,7 +290,7 @@ def run(tier, seed):
         return 1
     C.write_evidence("C18", tier, seed, cov, time.time() - t0, 0,
                      assumptions=["model/implementation agreement is established on the generated cases only"])
-    print(f"C18: {len(obligations)} theorems closed; {len(runs)} paired + {len(tcases)} tuple-layout + {dn} receiver-kind co-executions agree ({time.time()-t0:.1f}s)")
+    print(f"C18: {len(obligations)} theorems closed; {len(runs)} paired + {len(tcases)} tuple-layout + {dn} receiver-kind + {cn} scheduled co-executions agree ({time.time()-t0:.1f}s)")
     return 0
 
 
@@ -279,6 +298,9 @@ def replay(path):
     payload = json.load(open(path))
     if payload.get("part") == "deleg":
         return DP.replay("C18", payload, path)
+    if payload.get("part") == "sched":
+        from ..layer_b import replay_sched
+        return replay_sched("C18", payload, path)
     if payload.get("part") == "tuples":
         case = payload["case"]
         ci, cm = T.both("tuples18", [case])
